@@ -25,7 +25,7 @@ from simkit.rng import seed_globals  # noqa: E402
 from simkit.world import InvalidScenario, Monitor, Violation, result, run_sim  # noqa: E402
 
 PROPERTY = "C11"
-RUNS = {"quick": 2000, "thorough": 300_000}
+RUNS = {"quick": 2000, "thorough": 600_000}
 WALL = {"quick": 50, "thorough": 1500}
 BATCH = {"quick": 25, "thorough": 200}
 SELFTEST_RUNS = 8
